@@ -9,5 +9,6 @@ CONSTANTS
   MissingParentIgnored = FALSE
   ProfileBeatsFlag = FALSE
   EnvProfileBeatsFlag = FALSE
+  WindowAsUnit = FALSE
 INVARIANTS C32_NoHang
 CHECK_DEADLOCK FALSE
